@@ -281,7 +281,10 @@ type caseHdr struct {
 	id         string
 	mode, grid int
 	w, h       int
+	mask       int // observation mask: bit i = print records with tag i; 0 = all
 }
+
+func (h caseHdr) want(tag int) bool { return h.mask == 0 || h.mask&(1<<uint(tag)) != 0 }
 
 type runner struct {
 	hdr      caseHdr
@@ -375,7 +378,13 @@ func b2i(b bool) int {
 
 func (r *runner) printScreen(which int, s *termemu.VerifScreen) {
 	o := r.out
+	if !r.hdr.want(2) {
+		return
+	}
 	fmt.Fprintf(o, "2 %d %d %d %d %d %d %d %d %d %d %d %d %d\n", which, s.W, s.H, s.CX, s.CY, s.SX, s.SY, s.Top, s.Bottom, b2i(s.AutoWrap), s.FG, s.BG, s.UL)
+	if !r.hdr.want(3) {
+		return
+	}
 	for y, row := range s.Rows {
 		fmt.Fprintf(o, "3 %d %d", which, y)
 		for _, c := range row {
@@ -397,11 +406,15 @@ func (r *runner) observe() []string {
 	fmt.Fprintf(o, "1 %d %d 0 0\n", r.opidx, b2i(r.crashed || r.wedged))
 	r.printScreen(0, &snap.Main)
 	r.printScreen(1, &snap.Alt)
-	fmt.Fprint(o, "4")
-	for _, b := range r.be.takeOut() {
-		fmt.Fprintf(o, " %d", b)
+	outBytes := r.be.takeOut()
+	if r.hdr.want(4) {
+		fmt.Fprint(o, "4")
+		for _, b := range outBytes {
+			fmt.Fprintf(o, " %d", b)
+		}
+		fmt.Fprintln(o)
 	}
-	fmt.Fprintln(o)
+	o = r.maskedWriter(5)
 	fmt.Fprintf(o, "5 %d", b2i(snap.OnAlt))
 	for _, f := range snap.Flags {
 		fmt.Fprintf(o, " %d", b2i(f))
@@ -416,6 +429,7 @@ func (r *runner) observe() []string {
 		}
 	}
 	fmt.Fprintln(o)
+	o = r.maskedWriter(6)
 	for i, s := range snap.Strings {
 		fmt.Fprintf(o, "6 %d", i)
 		for _, b := range []byte(s) {
@@ -451,11 +465,13 @@ func (r *runner) observe() []string {
 			regs = append(regs, fmt.Sprintf("%d %d %d %d", e.a, e.b, e.c, e.d))
 		}
 	}
+	o = r.maskedWriter(7)
 	fmt.Fprintf(o, "7 %d %d %d %d %d %d", bells, lc[0], lc[1], ls[0], ls[1], ls[2])
 	for _, v := range view {
 		fmt.Fprint(o, " ", v)
 	}
 	fmt.Fprintln(o)
+	o = r.maskedWriter(8)
 	fmt.Fprint(o, "8")
 	for _, v := range regs {
 		fmt.Fprint(o, " ", v)
@@ -542,6 +558,16 @@ func (r *runner) observe() []string {
 	return problems
 }
 
+var discard = bufio.NewWriter(io.Discard)
+
+func (r *runner) maskedWriter(tag int) *bufio.Writer {
+	if r.hdr.want(tag) {
+		return r.out
+	}
+	discard.Reset(io.Discard)
+	return discard
+}
+
 func firstLine(s string) string {
 	if i := strings.IndexByte(s, '\n'); i >= 0 {
 		s = s[:i]
@@ -580,6 +606,9 @@ func runCases(in io.Reader, out io.Writer) {
 		switch nums[0] {
 		case 100:
 			r = &runner{hdr: caseHdr{id: id, mode: nums[1], grid: nums[2], w: nums[3], h: nums[4]}, out: w}
+			if len(nums) > 5 {
+				r.hdr.mask = nums[5]
+			}
 			fmt.Fprintf(w, "# %s\n", id)
 			r.start()
 		case 101:
